@@ -27,8 +27,9 @@ RULE = (
     "runs the remote command locally - on every CPython 3.10-3.13 present, started with -I -S (no site-packages, no "
     "PYTHONPATH: 'import execnet' fails there, which every case verifies remotely first), with the thread and "
     "main_thread_only models. Oracle: the transcript oracle of C02 on every path (hence equal to the import-"
-    "bootstrapped baseline), three consecutive bodies on the idle worker run in the same threads as on an import-"
-    "bootstrapped worker of that model (its serving main thread), and at the end no module named execnet* in the "
+    "bootstrapped baseline), consecutive bodies on the idle worker run where they run on an import-bootstrapped worker "
+    "(main_thread_only: all in the serving main thread; thread: the serving thread is used again within 9 consecutive "
+    "bodies - a single body may legitimately go to a fresh thread), and at the end no module named execnet* in the "
     "worker's sys.modules. The pipe-fed paths (python=, via=, ssh) are additionally run with the remote interpreter's "
     "standard streams set to ascii / latin-1 (-S without -I plus PYTHONIOENCODING; execnet still not importable, "
     "verified remotely): the bootstrap text arrives on the remote text-mode stdin. Part 'static' is an "
@@ -111,7 +112,10 @@ class Paths(Part):
             path=st.sampled_from(["import", "python", "via", "socket_via", "socketserver", "ssh"]),
             interp=st.sampled_from(["3.10", "3.11", "3.12", "3.13"]),
             model=st.sampled_from(["thread", "main_thread_only"]),
-            convs=st.lists(TP.c02_params(max_items=3), min_size=1, max_size=3),
+            # a third of the programs carry payloads of up to 2 MB (reads that come back short on sockets and pipes)
+            convs=st.one_of(st.lists(TP.c02_params(max_items=3), min_size=1, max_size=3),
+                            st.lists(TP.c02_params(max_items=3), min_size=1, max_size=3),
+                            st.lists(TP.c02_params(max_items=2, max_blob=2000000, min_blob=262145), min_size=1, max_size=2)),
             # encoding of the remote interpreter's standard streams (the bootstrap line arrives on its text stdin)
             stdio=st.sampled_from(["default", "default", "ascii", "latin-1"]),
         ))
@@ -182,14 +186,23 @@ class Paths(Part):
                 # where bodies run: on an idle import-bootstrapped worker every one of a series of consecutive bodies runs
                 # in the thread that serves the gateway (its main thread), whatever the model
                 names = []
-                for _ in range(3):
+                ref = self.ref_threads[want_backend]
+                for i in range(9):
                     ch = gw.remote_exec(THREADCHECK)
                     names.append(ch.receive(30))
                     ch.waitclose(30)
-                if names != self.ref_threads[want_backend]:
-                    raise Violation("paths.body-thread-differs", f"{path}/{case['interp']}/{want_backend}: three consecutive bodies "
-                                    f"ran in threads {names}, on an import-bootstrapped worker in {self.ref_threads[want_backend]}",
-                                    site=path)
+                    if want_backend == "main_thread_only" and len(names) == 3:
+                        break
+                    if want_backend == "thread" and names[-1] == ref[0]:
+                        break
+                    # thread model: a body submitted before the serving thread has re-armed itself legitimately goes to a
+                    # fresh thread (timing); what an import-bootstrapped worker never does is to avoid its serving thread
+                    # for good
+                    time.sleep(0.02)
+                bad = names != ref if want_backend == "main_thread_only" else ref[0] not in names
+                if bad:
+                    raise Violation("paths.body-thread-differs", f"{path}/{case['interp']}/{want_backend}: {len(names)} consecutive "
+                                    f"bodies ran in threads {names}, on an import-bootstrapped worker in {ref[0]}", site=path)
                 sequential = model == "main_thread_only" and path not in ("socket_via", "socketserver")
                 program, expects = TP.build_c02_program(case["convs"], sequential=sequential)
                 res = convo.run_a(gw, f"c15-{ctx.shard}-{next(_pid)}", program, inproc.CONVO_SRC)
@@ -210,7 +223,10 @@ class Paths(Part):
             if wd.fired:
                 raise Violation("paths.hang", f"{path}/{case['interp']}/{model}: did not finish within 150 s", site=path)
             rich = any(p["sub"] or p["kind_a"] == "callback" or p["kind_b"] == "callback" for p in case["convs"])
-            return dict(labels=["path:" + path, "py:" + case["interp"], "model:" + model, "stdio:" + stdio],
+            big = any(isinstance(pl, dict) and ("blob" in pl or "tblob" in pl) and list(pl.values())[0][2] > 262144
+                      for p in case["convs"] for d in ("a2b", "b2a") for sender in p[d] for pl in sender)
+            return dict(labels=["path:" + path, "py:" + case["interp"], "model:" + model, "stdio:" + stdio]
+                        + (["payload>256K"] if big else []),
                         nontrivial=path != "import" and rich,
                         sample={"path": path, "interp": case["interp"], "model": model, "convs": len(case["convs"])})
         except Violation:
